@@ -165,7 +165,13 @@ def _isinf(v):
     return isinstance(v, float) and math.isinf(v)
 
 
+def _isnan(v):
+    return isinstance(v, float) and math.isnan(v)
+
+
 def add(a, b):
+    if _isnan(a) or _isnan(b):
+        return NAN
     if _both_conc(a, b):
         if isinstance(a, float) or isinstance(b, float):
             return float(a) + float(b) if (_isinf(a) or _isinf(b)) else from_float(a) + from_float(b)
@@ -178,6 +184,8 @@ def add(a, b):
 
 
 def sub(a, b):
+    if _isnan(a) or _isnan(b):
+        return NAN
     if _both_conc(a, b):
         if _isinf(a) or _isinf(b):
             return float(a) - float(b)
@@ -192,6 +200,8 @@ def sub(a, b):
 
 
 def mul(a, b):
+    if _isnan(a) or _isnan(b):
+        return NAN
     if _both_conc(a, b):
         if _isinf(a) or _isinf(b):
             return float(a) * float(b)
@@ -211,12 +221,16 @@ def mul(a, b):
 
 
 def neg(a):
+    if _isnan(a):
+        return NAN
     if not is_sym(a):
         return -from_float(a) if not _isinf(a) else -a
     return -a
 
 
 def truediv(a, b):
+    if _isnan(a) or _isnan(b):
+        return NAN
     if _both_conc(a, b):
         if _isinf(b):
             return Fraction(0)
@@ -264,6 +278,8 @@ def mod(a, b):
 
 
 def power(a, b):
+    if _isnan(a) or _isnan(b):
+        return NAN
     """Python ``a ** b``."""
     if _both_conc(a, b):
         a2, b2 = from_float(a), from_float(b)
@@ -317,6 +333,8 @@ def _exact_root(q: Fraction, k: int):
 
 
 def absv(a):
+    if _isnan(a):
+        return NAN
     if not is_sym(a):
         return abs(from_float(a)) if not _isinf(a) else abs(a)
     return z3.If(a >= 0, a, -a)
@@ -405,6 +423,8 @@ def lnot(x):
 
 def apply_uf(name, a):
     """Apply a transcendental; concrete special values are folded."""
+    if _isnan(a):
+        return NAN
     if not is_sym(a):
         a = from_float(a)
         if _isinf(a):
